@@ -43,17 +43,27 @@ Definition cfg_after (sws : list sw) (t : Qc) : list bool := repl after_spec t s
 Definition cfg_before (sws : list sw) (t : Qc) : list bool := repl before_spec t sws.
 
 Lemma qlt_irrefl a : qlt a a = false.
-Proof. unfold qlt. rewrite (proj2 (Qceq_alt a a) eq_refl). reflexivity. Qed.
+Proof. unfold qlt. rewrite (proj1 (Qceq_alt a a) eq_refl). reflexivity. Qed.
 Lemma qle_refl a : qle a a = true.
 Proof. unfold qle. rewrite qlt_irrefl. reflexivity. Qed.
 (* at its own activation instant a switch has just changed state *)
 Theorem own_instant_toggles s : closed (sw_kind s) (after_spec (sw_time s) (sw_time s)) = negb (closed (sw_kind s) (before_spec (sw_time s) (sw_time s))).
 Proof. unfold after_spec, before_spec. rewrite qle_refl, qlt_irrefl. destruct (sw_kind s); reflexivity. Qed.
 (* between two consecutive instants nothing changes: the configuration after t1 is the one before t2 *)
+Lemma qcmp_flip (t a : Qc) : (t ?= a)%Qc = CompOpp (a ?= t)%Qc.
+Proof. unfold Qccompare. symmetry. apply Qcompare_antisym. Qed.
+(* decide an identity between comparison-built booleans by cases on (a ?= t) *)
+Ltac cmp_cases t a := unfold after_spec, before_spec, qle, qlt; rewrite ?(qcmp_flip t a); destruct (a ?= t)%Qc; reflexivity.
+Lemma qlt_spec a b : qlt a b = true <-> (a < b)%Qc.
+Proof. unfold qlt. split.
+  - intros H. apply Qclt_alt. destruct (a ?= b)%Qc; [discriminate | reflexivity | discriminate].
+  - intros H. rewrite (proj1 (Qclt_alt a b) H). reflexivity. Qed.
+Lemma qle_spec a b : qle a b = true <-> (a <= b)%Qc.
+Proof. unfold qle. rewrite negb_true_iff. split.
+  - intros H. apply Qcnot_lt_le. intros L. apply qlt_spec in L. congruence.
+  - intros H. destruct (qlt b a) eqn:E; [|reflexivity]. apply qlt_spec in E. exfalso. exact (Qcle_not_lt _ _ H E). Qed.
 Lemma qlt_trans_le a b c : qle a b = true -> qlt b c = true -> qlt a c = true.
-Proof. unfold qle, qlt. intros H1 H2. destruct (b ?= c)%Qc eqn:E2; try discriminate. destruct (b ?= a)%Qc eqn:E1; try discriminate.
-  - apply Qceq_alt in E1. subst. rewrite E2. reflexivity.
-  - apply Qcgt_alt in E1. apply Qclt_alt in E2. assert (H : (a < c)%Qc) by (eapply Qclt_trans; eassumption). apply Qclt_alt in H. rewrite H. reflexivity. Qed.
+Proof. rewrite qle_spec, !qlt_spec. apply Qcle_lt_trans. Qed.
 Definition no_instant_between (sws : list sw) (t1 t2 : Qc) : Prop :=
   forall s, In s sws -> qlt t1 (sw_time s) = true -> qlt (sw_time s) t2 = false.
 Theorem cfg_interval sws t1 t2 : qlt t1 t2 = true -> no_instant_between sws t1 t2 -> cfg_after sws t1 = cfg_before sws t2.
@@ -104,19 +114,44 @@ Proof. induction times as [|tk rest IH]; intros tprev x t c d y Hin; cbn [handed
   destruct (qlt t tk); [destruct Hin|]. destruct Hin as [E|Hin].
   - inversion E; subst. exists tprev, x. split; reflexivity.
   - exact (IH _ _ _ _ _ _ Hin). Qed.
-(* the state the IVP starts from is the last handed-over state *)
-Theorem handover_last : forall times tprev x t, handed tprev x times t <> [] ->
-  exists c d, last (handed tprev x times t) (cfg_after sws tprev, 0%Qc, x) = (c, d, snd (handover tprev x times t)).
-Proof. induction times as [|tk rest IH]; intros tprev x t Hne; cbn [handed handover] in *; [congruence|].
-  destruct (qlt t tk); [congruence|].
-  set (x' := evolve (cfg_after sws tprev) x (tk - tprev)%Qc) in *.
-  destruct (handed tk x' rest t) as [|h l] eqn:Eh.
-  - exists (cfg_after sws tprev), (tk - tprev)%Qc. cbn [last]. f_equal.
-    clear - Eh. revert tk x' Eh. induction rest as [|t2 r IHr]; intros tk x' Eh; cbn [handed handover] in *; [reflexivity|].
-    destruct (qlt t t2); [reflexivity | discriminate].
-  - destruct (IH tk x' t) as [c [d E]]; [rewrite Eh; discriminate|]. exists c, d. rewrite Eh in E.
-    change (last ((cfg_after sws tprev, (tk - tprev)%Qc, x') :: h :: l) (cfg_after sws tprev, 0%Qc, x)) with (last (h :: l) (cfg_after sws tprev, 0%Qc, x)).
-    rewrite <- E. clear. generalize (h :: l). intros m. destruct m; [|].
-    + cbn. admit_placeholder.
-    + admit_placeholder. Qed.
+(* the state the IVP starts from is the last handed-over state (the given one when no instant has passed) *)
+Theorem handover_last : forall times tprev x t,
+  snd (handover tprev x times t) = fold_left (fun _ h => snd h) (handed tprev x times t) x.
+Proof. induction times as [|tk rest IH]; intros tprev x t; cbn [handed handover]; [reflexivity|].
+  destruct (qlt t tk); [reflexivity|]. cbn [fold_left snd]. apply IH. Qed.
+
+(* the converted problem: before the first instant there is nothing to hand over; otherwise the
+   first interval starts from the pre-switch solution [pre] evaluated AT the first instant *)
+Variable pre : list bool -> Qc -> state.
+Definition convert_spec (times : list Qc) (t : Qc) : option (Qc * state) :=
+  match times with
+  | [] => None
+  | t1 :: rest => if qlt t t1 then None else Some (handover t1 (pre (cfg_before sws t1) t1) rest t)
+  end.
+(* what the real convert_IVP must show when it is instrumented: one entry per initialize(before, T) call:
+   configuration of `before`, the time T at which `before` is evaluated (absolute for the first
+   hand-over, relative to the previous instant afterwards); and the final configuration *)
+Fixpoint trace_rest (tprev : Qc) (times : list Qc) (t : Qc) : list (list bool * Qc) :=
+  match times with
+  | [] => []
+  | tk :: rest => if qlt t tk then [] else (cfg_after sws tprev, (tk - tprev)%Qc) :: trace_rest tk rest t
+  end.
+Definition trace_spec (times : list Qc) (t : Qc) : list (list bool * Qc) :=
+  match times with
+  | [] => []
+  | t1 :: rest => if qlt t t1 then [] else (cfg_before sws t1, t1) :: trace_rest t1 rest t
+  end.
+Fixpoint last_instant (tprev : Qc) (times : list Qc) (t : Qc) : Qc :=
+  match times with [] => tprev | tk :: rest => if qlt t tk then tprev else last_instant tk rest t end.
+Lemma handover_fst : forall times tprev x t, fst (handover tprev x times t) = last_instant tprev times t.
+Proof. induction times as [|tk rest IH]; intros tprev x t; cbn [handover last_instant]; [reflexivity|]. destruct (qlt t tk); [reflexivity | apply IH]. Qed.
+Lemma trace_rest_handed : forall times tprev x t,
+  trace_rest tprev times t = map (fun h => (fst (fst h), snd (fst h))) (handed tprev x times t).
+Proof. induction times as [|tk rest IH]; intros tprev x t; cbn [trace_rest handed]; [reflexivity|].
+  destruct (qlt t tk); [reflexivity|]. cbn [map fst snd]. f_equal. apply IH. Qed.
+Definition final_cfg (times : list Qc) (t : Qc) : list bool :=
+  match times with
+  | [] => cfg_after sws t
+  | t1 :: rest => if qlt t t1 then cfg_after sws t else cfg_after sws (last_instant t1 rest t)
+  end.
 End Handover.
